@@ -9,6 +9,7 @@ out for the harness), the timed poll model with the measured MaxPollGap, the rea
 grid + seeded random situations + the wall-clock situations + crash probes in both build profiles, and
 Trace_TimeAlloc on every recorded event (PropertyView -> VIOLATION, CodeView -> DRIFT)."""
 import os, json, glob, math, queue, subprocess, threading, time, filecmp
+from concurrent.futures import ThreadPoolExecutor
 import vlib
 from vlib import ToolError, log
 
@@ -260,13 +261,14 @@ def main():
                         os.remove(p)
             return ("grid", r, grid, 0)
         if kind == "timed":
-            cfg = os.path.join(od, "mc_timed.cfg")
-            rems = "{%d, %d}" % (rem_units, rem_units + 1) if q else "{%d, %d, %d}" % (rem_units, rem_units + 1, 250 // UNIT_MS)
+            _, name, rems, dense = j
+            cfg = os.path.join(od, "mc_timed_%s.cfg" % name)
             write_cfg(cfg, {"Dense": "FALSE", "Shard": 0, "NShards": 1, "MaxPollGap": g_units, "StartLat": lat_units,
-                            "RetLat": lat_units, "RemChoices": rems, "DenseSoft": "FALSE" if q else "TRUE"},
+                            "RetLat": lat_units, "RemChoices": rems, "DenseSoft": dense},
                       "SPECIFICATION TimedSpec\nINVARIANT ReturnsInTime\nINVARIANT NeverLate\nINVARIANT TTypeOK\n"
                       "PROPERTY EventuallyStops\nCHECK_DEADLOCK FALSE\n")
             r = vlib.tlc("MC_TimeAlloc", cfg=cfg, env={"GRIDOUT": ""}, extra=["-coverage", "1"], timeout=3000)
+            r.name = name
             return ("timed", r, None, 0)
         if kind == "extra":       # wall-clock situations, crash probes with numbers beyond 32 bits, random situations
             grid = os.path.join(od, "extra_grid.ndjson")
@@ -289,7 +291,14 @@ def main():
             return ("extra", None, grid, 20000 if q else 100000)
         raise AssertionError(kind)
 
-    stage1 = vlib.pmap(job, [("grid", sh) for sh in range(nsh)] + [("timed",), ("extra",)], n=16)
+    # the timed model runs beside the grid pipeline (all limits allowed by PropertyView, clocks of 200 ms and more)
+    u = rem_units
+    timed_jobs = [("timed", "sparse", "{%d, %d}" % (u, u + 1), "FALSE")] if q else \
+                 [("timed", "sparse", "{%d, %d, %d, %d}" % (u, u + 1, 250 // UNIT_MS, 500 // UNIT_MS), "FALSE"),
+                  ("timed", "dense", "{%d}" % u, "TRUE")]
+    bg = ThreadPoolExecutor(max_workers=2)
+    timed_futs = [bg.submit(job, tj) for tj in timed_jobs]
+    stage1 = vlib.pmap(job, [("grid", sh) for sh in range(nsh)] + [("extra",)], n=14)
 
     # real TimeStrategy::new on every situation, both build profiles
     def run_harness(item):
@@ -321,30 +330,32 @@ def main():
                 os.remove(fpath)
         return chunks
     chunks = [c for cs in vlib.pmap(run_harness, stage1, n=8) for c in cs]
-    traces = vlib.pmap(lambda c: trace(c[0], "lim"), chunks, n=16)
+    traces = vlib.pmap(lambda c: trace(c[0], "lim"), chunks, n=14)
 
     # ------------------------------------------------------------------ collect
     states = transitions = 0
-    timed = None
     for kind, r, grid, _ in stage1:
         if kind == "grid":
             states += r.distinct
             transitions += r.distinct // 2          # one Allocate/Crash step per situation
-        elif kind == "timed":
-            timed = r
-    timed_ok = bool(timed.ok and not timed.error)
-    if timed_ok:
-        for a in ("TAdvance", "TPoll", "TBoundary"):
-            if timed.coverage.get(a, (0, 0))[0] == 0:
-                raise ToolError("timed model: action %s never taken: %s" % (a, timed.coverage))
-        states += timed.distinct
-        transitions += timed.states
-    elif timed.error and "ReturnsInTime" in timed.error:
-        chk.drift.append({"what": "measured-poll-gap-breaks-the-premise-of-the-timed-model",
-                          "detail": {"max_poll_gap_ms": gap_ms, "unit_ms": UNIT_MS, "MaxPollGap": g_units,
-                                     "StartLat": lat_units, "RetLat": lat_units}, "source": "MC_TimeAlloc TimedSpec"})
-    else:
-        raise ToolError("MC_TimeAlloc (timed): %s" % (timed.error or timed.stdout[-2000:]))
+    timed_ok, timed_states = True, 0
+    for f in timed_futs:
+        timed = f.result()[1]
+        if timed.ok and not timed.error:
+            for a in ("TAdvance", "TPoll", "TBoundary"):
+                if timed.coverage.get(a, (0, 0))[0] == 0:
+                    raise ToolError("timed model: action %s never taken: %s" % (a, timed.coverage))
+            states += timed.distinct
+            timed_states += timed.distinct
+            transitions += timed.states
+        elif timed.error and "ReturnsInTime" in timed.error:
+            timed_ok = False
+            chk.drift.append({"what": "measured-poll-gap-breaks-the-premise-of-the-timed-model",
+                              "detail": {"max_poll_gap_ms": gap_ms, "unit_ms": UNIT_MS, "MaxPollGap": g_units,
+                                         "StartLat": lat_units, "RetLat": lat_units}, "source": "MC_TimeAlloc TimedSpec " + timed.name})
+        else:
+            raise ToolError("MC_TimeAlloc (timed %s): %s" % (timed.name, timed.error or timed.stdout[-2000:]))
+    bg.shutdown()
 
     tot = {}
     ood, identical = [], True
@@ -362,6 +373,8 @@ def main():
         for d in r.drifts("C14"):
             chk.drift.append({"what": d["what"], "detail": d["detail"], "source": cp})
         ood += r.viols("C14-OOD")
+        if kind != "extra" and not r.viols("C14") and not r.drifts("C14"):
+            os.remove(cp)                            # only chunks named by a report are kept
     ood += rp.viols("C14-OOD")
     if tot.get("nontrivial", 0) == 0 or tot.get("cap_binds", 0) == 0 or tot.get("crash_only", 0) == 0:
         raise ToolError("vacuous trace validation: %s" % tot)
@@ -407,7 +420,7 @@ def main():
         "poll_gap_ms_max": round(gap_ms, 3), "poll_gap_searches": ps["runs"], "polls_observed": ps["polls"],
         "ms_beyond_hard_limit_in_harness_max": round(ps["max_over_hard_ns"] / 1e6, 3),
         "timed_model": {"unit_ms": UNIT_MS, "MaxPollGap": g_units, "StartLat": lat_units, "RetLat": lat_units,
-                        "holds": timed_ok, "states": timed.distinct},
+                        "holds": timed_ok, "states": timed_states},
     })
     chk.assumptions += [
         "float tolerance fixed in DESIGN.md C14: PropertyView bounds may be exceeded by one part in 2^22 plus 1 us "
